@@ -43,7 +43,11 @@ type BOptions struct {
 	// repository's test template (jobs are started through a job script)
 	JobMode string
 	MaxJobs int
-	Fault   *Fault
+	// FlakyQueue (cluster mode): mrp runs from a private install whose queue
+	// query tool prints only a header and exits non-zero on its first calls
+	// (a scheduler that is briefly unreachable), and lists the pids afterwards
+	FlakyQueue bool
+	Fault      *Fault
 	Slow      map[string]int // job key -> milliseconds before the body
 	Gate      []string       // job keys that wait for Release
 	// mrp-side kill / signal at its KillAt-th file-system effect (fsmrp)
@@ -338,6 +342,49 @@ func PrepareB(p *progen.Program, opts *BOptions) (dir string, err error) {
 	return dir, nil
 }
 
+// privateInstall copies an install below dir with its own jobmanagers
+// directory, in which the queue query tool of the fake_remote mode is flaky.
+func privateInstall(root, inst, dir string) (string, error) {
+	priv := filepath.Join(dir, "inst")
+	if err := os.MkdirAll(filepath.Join(priv, "bin"), 0o755); err != nil {
+		return "", err
+	}
+	for _, b := range []string{"mrp", "mrjob"} {
+		data, err := os.ReadFile(filepath.Join(root, inst, "bin", b))
+		if err != nil {
+			return "", err
+		}
+		if err := os.WriteFile(filepath.Join(priv, "bin", b), data, 0o755); err != nil {
+			return "", err
+		}
+	}
+	os.Symlink(filepath.Join(root, inst, "adapters"), filepath.Join(priv, "adapters"))
+	jm := filepath.Join(priv, "jobmanagers")
+	os.MkdirAll(jm, 0o755)
+	src, _ := filepath.EvalSymlinks(filepath.Join(root, inst, "jobmanagers"))
+	ents, err := os.ReadDir(src)
+	if err != nil {
+		return "", err
+	}
+	for _, e := range ents {
+		if e.IsDir() {
+			continue
+		}
+		data, err := os.ReadFile(filepath.Join(src, e.Name()))
+		if err != nil {
+			return "", err
+		}
+		info, _ := e.Info()
+		if e.Name() == "pid_query.sh" {
+			data = []byte("#!/bin/sh\n# /verif: the first two calls print a header and fail\nn=$(cat \"$VERIF_CTL/qcount\" 2>/dev/null || echo 0)\necho $((n+1)) > \"$VERIF_CTL/qcount\"\nif [ \"$n\" -lt 2 ]; then echo PID; exit 1; fi\nps xo pid | tr -d ' '\n")
+		}
+		if err := os.WriteFile(filepath.Join(jm, e.Name()), data, info.Mode().Perm()); err != nil {
+			return "", err
+		}
+	}
+	return priv, nil
+}
+
 // StartB starts mrp.
 func StartB(p *progen.Program, opts *BOptions) (*BRun, error) {
 	dir, err := PrepareB(p, opts)
@@ -386,7 +433,15 @@ func StartB(p *progen.Program, opts *BOptions) (*BRun, error) {
 		args = append(args, "--retry-wait=0")
 	}
 	args = append(args, opts.ExtraArgs...)
-	cmd := exec.Command(filepath.Join(root, inst, "bin", "mrp"), args...)
+	mrpPath := filepath.Join(root, inst, "bin", "mrp")
+	if opts.FlakyQueue {
+		priv, perr := privateInstall(root, inst, dir)
+		if perr != nil {
+			return nil, perr
+		}
+		mrpPath = filepath.Join(priv, "bin", "mrp")
+	}
+	cmd := exec.Command(mrpPath, args...)
 	cmd.Dir = dir
 	env := []string{"PATH=/usr/local/bin:/usr/bin:/bin", "HOME=" + dir, "MROPATH=" + filepath.Join(dir, "mro"),
 		"VERIF_CTL=" + b.Ctl, "VERIF_VSTAGE=" + filepath.Join(root, "vstage"), "MROFLAGS=", "TMPDIR=" + dir, "USER=verif", "LANG=C"}
